@@ -15,8 +15,8 @@ def main():
     for name in names:
         if "/" in name:                       # a staging directory like /tmp/seed-C06-out/1
             d = Path(name)
-            m = re.search(r"seed-(C\d+)-out/(\d+)", name)
-            name = f"{m.group(1)}-{m.group(2)}"
+            m = re.search(r"seed(2?)-(C\d+)-out/(\d+)", name)
+            name = f"{m.group(2)}-{int(m.group(3)) + (2 if m.group(1) else 0)}"
         else:
             d = V / "seeded" / name
         try:
